@@ -276,6 +276,7 @@ let run_file (inp : in_channel) (out : out_channel) =
   let c = { cid = ""; ropt = { r_dedup = None; r_inner = None; r_leaf = None; r_complete = None };
             keys = []; vals = []; hasvals = false; block = "" } in
   let mlines = ref [] and mid = ref "" and in_m = ref false in
+  let last_m = ref None in
   (try
      while true do
        let line = input_line inp in
@@ -283,6 +284,7 @@ let run_file (inp : in_channel) (out : out_channel) =
          if line = "EM" then begin
            in_m := false;
            let m = parse_msg (List.rev !mlines) in
+           last_m := Some m;
            Printf.fprintf out "C %s\n%s" !mid (decode_msg m)
          end else mlines := line :: !mlines
        end else
@@ -312,6 +314,27 @@ let run_file (inp : in_channel) (out : out_channel) =
            (* the same trie after Marshal/Unmarshal carries the same fields *)
            Printf.fprintf out "C %s+L\n%s" cid c.block
          | "M" :: id :: _ -> in_m := true; mid := id; mlines := []
+         | "MQ" :: q :: _ ->
+           (* GetID / Get recomputed from the message fields: Msg.mgetid / Msg.mget *)
+           (match !last_m with
+            | None -> failwith "MQ without message"
+            | Some m ->
+              let key = bytes_of_hex q in
+              let ans =
+                match init_vars m with
+                | Panic -> if int_of_n (node_count m) = 0 then "-1 N" else "PANIC"
+                | Val vs ->
+                  let fuel = nat_of_int (int_of_n (node_count m) + 2) in
+                  (match mgetid fuel m vs key, mget fuel m vs key with
+                   | Ok g, Ok f ->
+                     Printf.sprintf "%d %s"
+                       (match g with None -> -1 | Some id -> int_of_nat id)
+                       (match f with
+                        | NotFound -> "N"
+                        | Found None -> "F:nil"
+                        | Found (Some b) -> "F:" ^ hex_of_bytes b)
+                   | _, _ -> "PANIC") in
+              Printf.fprintf out "q %s G %s\n" q ans)
          | "F" :: id :: rest ->
            Printf.fprintf out "C %s\n" id;
            run_fn out rest
